@@ -49,6 +49,8 @@ claimed = {
          'bounds as stated; IPv6/percent-escaped hosts and Client/HostClient wrappers outside', "§0 C20"),
  "C21": ("the real Client / HostClient scheme handling on a scripted network with a transparent model of crypto/tls: for every scheme of 4-5 arbitrary letters, a request whose scheme is https only ever travels inside TLS to host:443 with ServerName = its host and never on a raw connection, an http request never travels inside TLS, any other scheme is refused by Client without transmission, a HostClient refuses a scheme that does not match IsTLS (ErrHostClientRedirectToDifferentScheme), also across http↔https redirects",
          "TLS itself is a model (handshake always succeeds, plaintext passed through and tagged); LBClient/PipelineClient outside", "§0 C21"),
+ "C22": ("with the codecs abstracted to tagging functions: CompressHandler* pick only an encoding the Accept-Encoding list names (lists of 1-2 elements from a table with an arbitrary token byte), declare exactly it, encode the handler's buffered or streamed body exactly once, add Vary, and leave small / incompressible / already encoded bodies alone; and each Write*Level function either produces output that decodes to its input or returns an error when the stack-saving work queue reports saturation",
+         "codecs themselves (DEFLATE, brotli, zstd) are outside any solver's reach and are stubbed; real queue dynamics outside", "§0 C22"),
  "C23": ("the real FS handler over a recording in-memory fs.FS: for every request target of '/' + ≤2/≤3 arbitrary bytes (through the real URI parser), Root ∈ {r, r/s, empty}, compression on/off and each built-in rewriter with counts 0..2 (arbitrary host bytes for the virtual-host rewriter), every name passed to Open is the root or lexically inside it, NUL paths open nothing (400), and '..' after rewriting opens nothing",
          "fs.FS mode only; os-level opens, symlinks and Windows paths outside; one known finding excluded (<root>.fasthttp.gz looked up next to the root)", "§0 C23"),
  "C24": ("ParseByteRange clause: for every range spec of ≤5/≤7 arbitrary bytes and every non-negative content length an accepted range satisfies 0 ≤ start ≤ end < length; the three RFC 9110 forms with ≤3/≤5 symbolic digits are accepted iff satisfiable with the right values; and the real FS handler behind the real serve loop over an in-memory fs.FS: a file of ≤2/≤3 arbitrary bytes, a Range spec of ≤3/≤4 arbitrary bytes, If-Modified-Since before/at/after the file's second, GET and HEAD: 206 with exactly the slice and a matching Content-Range, 416 when unsatisfiable, 304 when not newer to the second, else 200 with the full content; HEAD = GET's status and headers without a body",
@@ -82,7 +84,6 @@ claimed = {
 }
 
 na = {
- "C22": "codec internals (compress/flate, brotli, zstd) are loops over whole buffers that a bit-blasting back end cannot decide, and the abstraction of codecs as uninterpreted functions plus the stackless queue oracle was not built",
  "C36": "the oracle is net/http's own server; differential behaviour of two full HTTP servers is outside bounded symbolic execution of this code",
  "C37": "data races are not representable in a sequentially consistent interpreter; a solver query over SSA cannot decide happens-before",
  "C38": "wall-clock deadlines under the real scheduler; the engine's virtual clock cannot witness 'returns on time'",
